@@ -253,8 +253,16 @@ func DrawFrame(t *rapid.T, b FrameBounds) *FrameSpec {
 			for r := 0; r < fs.NRows; r++ {
 				if b.SmallDomain {
 					c.Ints = append(c.Ints, rapid.IntRange(-1, 3).Draw(t, "ismall"))
-				} else if rapid.IntRange(0, 3).Draw(t, "ik") == 0 {
+				} else if ik := rapid.IntRange(0, 4).Draw(t, "ik"); ik == 0 {
 					c.Ints = append(c.Ints, rapid.Int().Draw(t, "irand"))
+				} else if ik == 4 {
+					// decimal-shaped: d·10^k plus a short tail, either sign (whole digit groups of zeros)
+					v := rapid.IntRange(1, 9).Draw(t, "idig") * int(pow10u[rapid.IntRange(0, 18).Draw(t, "ipow")])
+					v += []int{0, 0, 1, -1, 123456789}[rapid.IntRange(0, 4).Draw(t, "itail")]
+					if rapid.Bool().Draw(t, "ineg") {
+						v = -v
+					}
+					c.Ints = append(c.Ints, v)
 				} else {
 					c.Ints = append(c.Ints, intPool[rapid.IntRange(0, len(intPool)-1).Draw(t, "ipool")])
 				}
